@@ -160,6 +160,13 @@ def check_to_base(A, rep):
         if len(used) == 1 and lits:
             ok = all(tag_of(A.model, used[0], t)[0] == lits[0] for t in ("SyncedDict subclass", "SyncedList subclass")) and \
                  all(tag_of(A.model, used[0], t)[0] != lits[0] for t in ("str", "int", "float", "bool", "NoneType"))
+        if not used:
+            # equivalent idiom: a direct isinstance test against the common base class of all synced collections
+            for n in ast.walk(func.node):
+                if isinstance(n, ast.Call) and isinstance(n.func, ast.Name) and n.func.id == "isinstance" and len(n.args) == 2:
+                    r_ = A.model.resolve_dotted(func.module, n.args[1]) if isinstance(n.args[1], (ast.Name, ast.Attribute)) else None
+                    if r_ is not None and r_[0] == "class" and r_[1].name == "SyncedCollection":
+                        ok = True
         if ok:
             rep.ok("C16.f", f"C16.f {func.qualname}: nested synced dicts and lists are both recognised (and converted), scalars are not")
         else:
